@@ -753,7 +753,7 @@ def evalCell (env : Env) : Expr → List Nat → List GQ
     | some f => cellOf f.data i f.nvdim
     | none => []
   | .opd (.num z _ _), _ => [z]
-  | .opd (.arr a _ _), i => cellOfB a i
+  | .opd (.arr a _ _), i => if a.shape = [] then [a.get []] else cellOfB a i
   | .un u e, i => (evalCell env e i).map (unFn env u)
   | .bin b l r, i =>
     match b with
